@@ -35,6 +35,7 @@ func (im vhImporter) Import(path string) (*types.Package, error) {
 // the packages the fixture sources import: parsed and type-checked like the fixture itself
 var vhDepSources = []struct{ path, file, src string }{
 	{"context", "context.go", "package context\n\ntype Context interface{ Err() error }\n"},
+	{"time", "time.go", "package time\n\ntype Time struct{ wall uint64 }\n"},
 	{"github.com/gopher-fleece/runtime", "runtime.go", "package runtime\n\ntype GleeceController struct{}\n\ntype Rfc7807Error struct {\n\tType string\n\tStatus int\n}\n"},
 }
 
